@@ -11,6 +11,7 @@ KINDMAP = {"id": K["ID"], "int": K["INT"], "op": K["NV_ID"], "assign": K["ASSIGN
            "stop": K["STOP"], "lparen": K["PAREN_OPEN"], "rparen": K["PAREN_CLOSE"]}
 TEXT = {"assign": ":=", "semi": ";", "comma": ",", "colon": ":", "run": "RUN", "with": "WITH", "end": "END", "loop": "LOOP", "do": "DO",
         "stop": "STOP", "lparen": "(", "rparen": ")"}
+ALT = {"run": "run", "with": "With", "end": "end", "loop": "loop", "do": "Do", "stop": "stop"}
 SLOT = {"ID": "<ID>", "INT": "<INT>", "VALUE": "<V>", "ARGS": "<ARGS>", "P": "<P>"}
 MAX_PASSES = 8       # ParseError::MACRO_APPLY_REACHED_MAX_PASSES
 
@@ -114,7 +115,12 @@ def replay(chk, th, fam, macros, cases, what, layout="lines"):
     for i, (key, cs) in enumerate(sorted(groups.items())):
         budget, sj = key
         stream = json.loads(sj)
-        inputs.append({"i": i, "files": render_files(macros, " ".join(ttext(t) for t in stream), layout), "main": "m",
+        if layout == "altcase":     # keywords of the program text in another spelling than the patterns': literal keywords match by kind
+            text = " ".join(ttext(t) if t["k"] in ("id", "int", "op") else ALT.get(t["k"], ttext(t)) for t in stream)
+            files = render_files(macros, text, "lines")
+        else:
+            files = render_files(macros, " ".join(ttext(t) for t in stream), layout)
+        inputs.append({"i": i, "files": files, "main": "m",
                        "passes": list(range(1, budget + 1))})
         keys.append(key)
     n = 0
@@ -178,4 +184,32 @@ def replay(chk, th, fam, macros, cases, what, layout="lines"):
         chk.sample({"family": fam, "source": inputs[k]["files"], "budget": keys[k][0],
                     "expected_steps": [" ".join(ttext(t) for t in _seq(s)) for s in _seq(groups[keys[k]][0]["steps"])]})
     chk.add("distinct_temporaries_seen", len(temps_seen))
+    return n
+
+
+def through_compile(chk, th, items, what):
+    """items: [(files, main, [(file, line)...])]: the errors apply_macros reported when called directly (TLC-decided verdicts were
+    compared on that path).  "Is reported" means reported by the public entry point: Theo::compile on the same files must mark the
+    result incorrect and carry an error at each of these locations.  Returns #compared."""
+    inputs = [{"i": i, "files": f, "main": m, "watch": 300} for i, (f, m, _) in enumerate(items)]
+    n = 0
+    for recs, rc, err, part in parallel_th(th, ["compile"], inputs, timeout=1800):
+        got = {r["i"]: r for r in recs if "ok" in r}
+        if rc != 0:
+            begun = [r["begin"] for r in recs if "begin" in r]
+            bad = inputs[begun[-1]] if begun else None
+            chk.violation("%s:compile-abort:%s" % (what, bad and json.dumps(bad["files"], sort_keys=True)[:200]),
+                          "Theo::compile did not return normally (exit %s) on %s: %s" % (rc, bad, err[-1200:]), {"input": bad})
+        for j in part:
+            r = got.get(j["i"])
+            if r is None:
+                continue
+            n += 1
+            locs = items[j["i"]][2]
+            have = {(e["file"], e["line"]) for e in r["errors"]}
+            missing = [l for l in locs if tuple(l) not in have]
+            if missing or (locs and r["ok"]):
+                chk.violation("%s:compile:%s" % (what, json.dumps(j["files"], sort_keys=True)[:300]),
+                              "apply_macros reports macro errors at %s for these files, but Theo::compile returns ok=%s with errors at %s: the error "
+                              "is not reported to the caller" % (locs, r["ok"], sorted(have)), {"input": j, "direct_errors": locs, "compile_result": r})
     return n
